@@ -9,6 +9,7 @@ import (
 	"fmt"
 	"reflect"
 	"sort"
+	"time"
 
 	"github.com/goghcrow/yae/conv"
 	"github.com/goghcrow/yae/types"
@@ -207,7 +208,7 @@ func c15One(r *Run, t *HT, v *HV) (ty *types.Type, ok bool) {
 		if why := deepTyped(vl, vl.Type, "value"); why != "" {
 			r.Violate("converted-value-ill-typed", what, why)
 		}
-		if terr != nil || !types.Equals(ty, vl.Type) {
+		if terr != nil || !refEq(FromGo(ty), FromGo(vl.Type)) {
 			r.Violate("type-differs-from-value-type", what, fmt.Sprintf("TypeOf gives %v (%v), the value has type %s", ty, terr, vl.Type))
 		}
 	}
@@ -248,7 +249,7 @@ func runC15(r *Run) {
 		// shape only: same Go type, no interface parts, nil-able parts non-nil or declared optional
 		if ok1 && ok2 && !t.hasIface() && shapeStable(t, v1, false) && shapeStable(t, v2, false) {
 			r.Count("shape-pair")
-			if !types.Equals(ty1, ty2) {
+			if !refEq(FromGo(ty1), FromGo(ty2)) {
 				r.Violate("type-depends-on-value", string(t.Sx()), fmt.Sprintf("%s vs %s", ty1, ty2))
 			}
 		}
@@ -275,6 +276,78 @@ func runC15(r *Run) {
 		}
 		if m, ok := iv.(map[int64]string); ok && err == nil && len(vl.Map().V) != len(m) {
 			r.Violate("map-integer-keys-collide-as-float", fmt.Sprintf("%v", iv), fmt.Sprintf("%d entries become %d", len(m), len(vl.Map().V)))
+		}
+	}
+	// inconsistent containers with SEVERAL entries (whatever order reflect.MapKeys yields, the elements disagree): the data
+	// must be refused by every entry point; if anything comes back it must at least be well typed
+	type withIface struct {
+		X interface{} `yae:"x"`
+	}
+	one, str := interface{}(1), interface{}("s")
+	for _, iv := range []interface{}{
+		map[string][]interface{}{"a": {1}, "b": {"x"}}, map[string]withIface{"a": {1}, "b": {"s"}}, map[int]map[string]interface{}{1: {"k": 1}, 2: {"k": "s"}},
+		map[string]*interface{}{"a": &one, "b": &str}, []map[string]interface{}{{"k": 1}, {"k": "s"}}, [][]interface{}{{1}, {"x"}}, []interface{}{[]interface{}{1}, []interface{}{"x"}},
+		[]withIface{{1}, {"s"}}, [2]withIface{{1}, {true}}, map[string][]withIface{"a": {{1}}, "b": {{"s"}}}, map[bool][]interface{}{true: {1}, false: {"x"}},
+		[]*withIface{{1}, {"s"}}, map[string]map[string][]interface{}{"a": {"k": {1}}, "b": {"k": {"x"}}},
+	} {
+		for _, wrap := range []func(interface{}) interface{}{
+			func(x interface{}) interface{} { return x },
+			func(x interface{}) interface{} { return map[string]interface{}{"m": x} },
+			func(x interface{}) interface{} { return struct{ M interface{} }{x} },
+		} {
+			hv := wrap(iv)
+			var vl *val.Val
+			var err error
+			pan, msg := protect(func() { vl, err = conv.ValOf(hv) })
+			r.Count("inconsistent-container corpus")
+			what := fmt.Sprintf("%T %v", hv, hv)
+			switch {
+			case pan:
+				r.Violate("conv-panics", what, msg)
+			case err == nil:
+				why := deepTyped(vl, vl.Type, "value")
+				r.Violate("inconsistent-data-accepted", what, fmt.Sprintf("ValOf returned a value of type %s (%s)", vl.Type, why))
+			}
+			var eerr error
+			protect(func() { _, eerr = conv.ValEnvOf(map[string]interface{}{"v": hv}) })
+			if eerr == nil {
+				r.Violate("inconsistent-data-accepted", what, "ValEnvOf accepted it")
+			}
+		}
+	}
+	// the same Go type with absent and present parts behind declared-optional fields and in empty containers
+	{
+		tm := time.Unix(1577934245, 0).UTC()
+		type opt struct {
+			T *time.Time  `yae:"t,maybe"`
+			P *inner      `yae:"p,maybe"`
+			Q **float64   `yae:"q,maybe"`
+			L []time.Time `yae:"l"`
+		}
+		f := 1.5
+		pf := &f
+		pairs := [][2]interface{}{
+			{opt{L: []time.Time{}}, opt{T: &tm, P: &inner{1}, Q: &pf, L: []time.Time{tm}}}, {[]*time.Time{}, []*time.Time{&tm}}, {map[string]*time.Time{}, map[string]*time.Time{"a": &tm}},
+			{[]**time.Time{}, []**time.Time{}}, {struct{ X []*time.Time }{[]*time.Time{}}, struct{ X []*time.Time }{[]*time.Time{&tm}}}, {[]opt{}, []opt{{T: &tm, L: []time.Time{}}}}, {[]opt{{L: []time.Time{}}}, []opt{{T: &tm, L: []time.Time{tm}}}},
+			{map[string][]*inner{}, map[string][]*inner{"a": {{1}}}}, {[0]*time.Time{}, [0]*time.Time{}},
+		}
+		for _, p := range pairs {
+			var t1, t2 *types.Type
+			var e1, e2 error
+			protect(func() { t1, e1 = conv.TypeOf(p[0]); t2, e2 = conv.TypeOf(p[1]) })
+			r.Count("same-go-type pairs")
+			if e1 != nil || e2 != nil {
+				continue
+			}
+			if !refEq(FromGo(t1), FromGo(t2)) {
+				r.Violate("type-depends-on-value", fmt.Sprintf("%T", p[0]), fmt.Sprintf("%s vs %s", t1, t2))
+			}
+			var v2 *val.Val
+			var ve error
+			protect(func() { v2, ve = conv.ValOf(p[1]) })
+			if ve == nil && v2 != nil && !refEq(FromGo(v2.Type), FromGo(t2)) {
+				r.Violate("type-differs-from-value-type", fmt.Sprintf("%T", p[1]), fmt.Sprintf("TypeOf %s, value type %s", t2, v2.Type))
+			}
 		}
 	}
 }
